@@ -85,6 +85,7 @@ type wgen struct {
 	nlabel  int
 	usedSt  bool
 	reads   int
+	noLit   int // > 0: leaves are never literals (the expression is then not a constant)
 }
 
 func (g *wgen) line(format string, args ...interface{}) {
@@ -123,7 +124,9 @@ func (g *wgen) expr(t wtype, depth int) string {
 	if depth <= 0 || r.Chance(1, 3) {
 		switch r.Intn(6) {
 		case 0:
-			return fmt.Sprint(r.Intn(1 << uint(min(wtypeBits[t], 8))))
+			if g.noLit == 0 {
+				return fmt.Sprint(r.Intn(1 << uint(min(wtypeBits[t], 8))))
+			}
 		case 1:
 			if g.f.hasArgA && t == tU32 {
 				return "args.a"
@@ -142,7 +145,7 @@ func (g *wgen) expr(t wtype, depth int) string {
 			ops = append(ops, "~mod*")
 		}
 		op := ops[r.Intn(len(ops))]
-		return fmt.Sprintf("(%s %s %s)", g.expr(t, depth-1), op, g.expr(t, depth-1))
+		return fmt.Sprintf("(%s %s %s)", g.exprNC(t, depth-1), op, g.expr(t, depth-1))
 	case 2: // narrowing from a wider variable
 		if t < tU64 {
 			w := wtype(int(t) + 1 + r.Intn(int(tU64-t)))
@@ -154,25 +157,37 @@ func (g *wgen) expr(t wtype, depth int) string {
 			return fmt.Sprintf("(%s as %s)", g.expr(w, depth-1), wtypeName[t])
 		}
 	case 4: // shift right by a constant
-		return fmt.Sprintf("(%s >> %d)", g.expr(t, depth-1), r.Intn(wtypeBits[t]))
+		return fmt.Sprintf("(%s >> %d)", g.exprNC(t, depth-1), r.Intn(wtypeBits[t]))
 	case 5:
-		return fmt.Sprintf("(%s ~mod<< %d)", g.expr(t, depth-1), r.Intn(wtypeBits[t]))
+		return fmt.Sprintf("(%s ~mod<< %d)", g.exprNC(t, depth-1), r.Intn(wtypeBits[t]))
 	}
 	return g.pickVar(t)
 }
 
+// exprNC: an expression that is not a compile-time constant.
+func (g *wgen) exprNC(t wtype, depth int) string {
+	g.noLit++
+	s := g.expr(t, depth)
+	g.noLit--
+	return s
+}
+
+// cond: a condition over compound, non-constant expressions only. (The checker keeps facts
+// about plain locals, e.g. "a0 == 0" after the declaration or "a0 < 5" inside an if; a second
+// condition on the same local that contradicts them is a compile error, not a program.)
 func (g *wgen) cond() string {
 	r := g.rng
 	t := wtype(r.Intn(4))
+	x, y := g.exprNC(t, 1), g.exprNC(t, 1)
 	switch r.Intn(4) {
 	case 0:
-		return fmt.Sprintf("(%s & %d) <> 0", g.expr(t, 1), 1<<uint(r.Intn(min(wtypeBits[t], 8))))
+		return fmt.Sprintf("((%s ^ %s) & %d) <> 0", x, y, 1<<uint(r.Intn(min(wtypeBits[t], 8))))
 	case 1:
-		return fmt.Sprintf("%s < %d", g.expr(t, 1), r.Range(1, 200))
+		return fmt.Sprintf("(%s ~mod+ %s) < %d", x, y, r.Range(1, 200))
 	case 2:
-		return fmt.Sprintf("%s == %s", g.expr(t, 1), g.expr(t, 1))
+		return fmt.Sprintf("(%s ^ %s) == (%s & %s)", x, y, g.exprNC(t, 0), g.exprNC(t, 0))
 	}
-	return fmt.Sprintf("%s >= %s", g.expr(t, 1), g.expr(t, 1))
+	return fmt.Sprintf("(%s | %s) >= (%s & %s)", x, y, g.exprNC(t, 0), g.exprNC(t, 0))
 }
 
 func (g *wgen) u8expr() string { return g.expr(tU8, 2) }
@@ -235,7 +250,7 @@ func (g *wgen) stmtAssign() {
 	case 2:
 		g.line("%s |= %s", v.name, g.expr(v.t, 1))
 	default:
-		g.line("%s = %s", v.name, g.expr(v.t, 2))
+		g.line("%s = %s", v.name, g.exprNC(v.t, 2))
 	}
 }
 
@@ -275,9 +290,6 @@ func (g *wgen) stmtCall() {
 		g.line("while true {")
 		g.ind++
 		g.line("st =? this.s%d?(dst: args.dst, src: args.src, a: %s)", k, g.expr(tU32, 1))
-		if g.rng.Bool() {
-			g.stmtFold()
-		}
 		g.line("if st.is_ok() {")
 		g.line("    break")
 		g.line("} else if st.is_error() {")
@@ -428,7 +440,11 @@ func (g *wgen) stmtWhile(depth int) {
 	g.block(depth-1, 1+g.rng.Intn(4))
 	g.loops = g.loops[:len(g.loops)-1]
 	g.ind--
-	g.line("}")
+	if lbl != "" {
+		g.line("}.%s", lbl)
+	} else {
+		g.line("}")
+	}
 }
 
 // genFunc generates one coroutine. Subs s<k> may call only subs with a larger index.
@@ -473,6 +489,14 @@ func genFunc(rng *hlib.Rand, name string, public bool, nsub, minSub int, size in
 		b.WriteString("    var st : base.status\n")
 	}
 	b.WriteString("\n")
+	// no compile-time facts about the locals (see cond)
+	for i, v := range f.vars {
+		if v.t == tU64 {
+			fmt.Fprintf(&b, "    %s = this.g1 >> %d\n", v.name, i)
+		} else {
+			fmt.Fprintf(&b, "    %s = ((this.g1 >> %d) & %s) as %s\n", v.name, i, mask(v.t), wtypeName[v.t])
+		}
+	}
 	b.WriteString(body)
 	b.WriteString("}\n")
 	f.src = b.String()
@@ -549,7 +573,7 @@ func templateFuncs() []*wfunc {
             args.dst.write_u8?(a: c)
         }
         a ~mod+= 1
-    }
+    }.outer
     args.dst.write_u8?(a: ((a & 0xFF) as base.u8))
 `),
 		// written in one branch only; the other branch keeps the value from before the suspension
